@@ -225,6 +225,7 @@ class C11(World):
             w_forms=[sw.choice([0, 1, 2]) for _ in FORMS[:4]] + [sw.choice([0, 0, 1])],
             p_invalid=sw.choice([0, 0, 0.1, 0.2]),
             names=sw.choice([1, 2, len(NAMES)]),
+            epoch=sw.choice([1_800_000_000.0, 1_835_000_000.0, 1_835_000_000.0, 4_110_000_000.0]),  # simulated "now": 2027, 2028 (a leap year), 2100
         )
         if not any(swarm["w_forms"]):
             swarm["w_forms"] = [1, 1, 1, 1, 0]
@@ -311,7 +312,7 @@ class C11(World):
             if op == "svc":
                 st = dict(op="svc", p=p, form=args.choices(FORMS, swarm["w_forms"])[0], name=args.choice(names), abort=abort, full=args.random() < 0.15)
             elif op == "clock":
-                st = dict(op="clock", dt=args.choice([0, 0, 1, 59, 3600, 86400, -1, -3600]))
+                st = dict(op="clock", dt=args.choice([0, 0, 1, 59, 3600, 86400, -1, -3600, 366 * 86400, 400 * 86400, -370 * 86400]))  # incl. into another (leap) year
             elif op == "mutate_result":
                 # the caller edits a RESULT object it was handed (its own property now); later calls must not see that
                 st = dict(op="mutate_result", which=args.randrange(64), what=args.choice(["clear_targets", "scale_qh", "drop_graphs", "rename", "deep", "deep"]))
@@ -383,7 +384,7 @@ class C11(World):
             return a
 
         scratch = make_scratch("c11")
-        clock = SimClock()
+        clock = SimClock(float(swarm.get("epoch") or 1_800_000_000.0))
         clock.install()
         exclude = ()
         if swarm.get("timing"):
